@@ -270,6 +270,12 @@ func (tr *Transaction) Discard() {
 	tr.lk.Lock()
 	if !tr.closed {
 		tr.discard()
+		// Iterators created from this transaction may outlive it and read
+		// up to tr.seq, so the discarded sequence numbers must not be
+		// handed out again to subsequent writes.
+		if tr.seq > tr.db.getSeq() {
+			tr.db.setSeq(tr.seq)
+		}
 		tr.setDone()
 	}
 	tr.lk.Unlock()
